@@ -225,10 +225,11 @@ class FrameQueueFrag(FrameQueue):
                 and frame.header.to_node == self._frags.header.to_node
                 and frame.header.frame_id == self._frags.header.frame_id
             ):
-                if (
-                    self._frags.header.reserved - 1 != frame.header.reserved
-                    and frame.header.message_type != MSG_FRAG_LAST
-                ):
+                if frame.header.message_type == MSG_FRAG_LAST:
+                    # the last fragment must follow the one that left a single fragment outstanding
+                    if not 0 < self._frags.header.reserved <= 2:
+                        return False
+                elif self._frags.header.reserved - 1 != frame.header.reserved:
                     # print("dropping non sequential fragment")
                     return False
                 self._frags.header.unpack(frame.header.pack())
